@@ -126,6 +126,12 @@ class ProcessWorker(Worker):
                     self._result = self._comms.parent_end.get()
                 except queue.Empty:
                     break
+                except Exception:
+                    # the final message could not be received or rebuilt on this side
+                    # (truncated by a kill, or an unpicklable result/exception)
+                    logger.exception('Could not receive the result from the child')
+                    self._result = None
+                    break
 
             if self._result is None:
                 self._result = (False, None)
